@@ -504,6 +504,7 @@ class World:
         self.failures: List[Tuple[str, str, str]] = []   # (oracle, signature, message)
         self.selectors: List[Any] = []
         self.rr = 0
+        self.long_tasks: List[Tuple[str, Any]] = []
         self.shuffle_ready = False
         self.task_seq = 0
         self.pipe_seq = 0
